@@ -6,7 +6,7 @@
    tree with the minimal parentheses implied by  unary > ++ > % > sequence > |. *)
 From Coq Require Import List NArith Bool Arith.
 Import ListNotations.
-From V Require Import Base.Prelude Model.C31 Proofs.C31 Proofs.C31Sound.
+From V Require Import Base.Prelude Model.C31 Proofs.C31 Proofs.C31Sound Proofs.C31Stop.
 
 (* precedence: every well-formed tree, printed with minimal parentheses and followed by any
    token that cannot continue an expression, is parsed back to exactly that tree, consuming
@@ -48,6 +48,12 @@ Theorem C31_parse_sound : forall f ts e r, P f SExpr ts = Some (Some e, r, 0) ->
   exists c, ts = c ++ r /\ strip c = strip (pr e).
 Proof. exact parse_expr_sound. Qed.
 
+(* … precisely: an error-free parse of ANY input gives the same result as parsing the minimal
+   print of the returned tree in the same right context (the parser is idempotent through [pr]) *)
+Theorem C31_parse_normalises : forall f ts e r, P f SExpr ts = Some (Some e, r, 0) ->
+  P (fuel_of (pr e ++ r)) SExpr (pr e ++ r) = Some (Some e, r, 0).
+Proof. exact parse_normalises. Qed.
+
 (* non-vacuity *)
 Definition a := [97]%N. Definition b := [98]%N. Definition c := [99]%N. Definition d := [100]%N.
 (* doc = a b % c ++ d | *(a | b) ?c ;   parses as  Choice[Seq[a, b % (c ++ d)], Seq[*(a|b), ?c]] *)
@@ -81,3 +87,4 @@ Print Assumptions C31_total.
 Print Assumptions C31_missing_factor_is_error.
 Print Assumptions C31_no_error_wf.
 Print Assumptions C31_parse_sound.
+Print Assumptions C31_parse_normalises.
